@@ -6,6 +6,7 @@ import (
 	"go/constant"
 	"go/token"
 	"go/types"
+	"sort"
 	"strconv"
 	"strings"
 
@@ -640,22 +641,38 @@ func stringWriterTable(c *core.Ctx, o *core.Ob) escTable {
 		// itself, the number for a byte with a known value, "?" otherwise
 		traces := env.Traces(g, []*core.V{bodyStart}, func(v *core.V, st *core.ByteState) string {
 			var toks []string
-			for _, x := range sinkExprs(fn.Info(), v) {
+			offs := storeOffsets(fn.Info(), v)
+			for i, x := range sinkExprs(fn.Info(), v) {
+				tok := "?"
 				switch {
 				case st.IsByte(x):
-					toks = append(toks, "B")
+					tok = "B"
 				default:
 					if k, ok := st.Int(x); ok {
-						toks = append(toks, strconv.FormatInt(k, 10))
-					} else {
-						toks = append(toks, "?")
+						tok = strconv.FormatInt(k, 10)
 					}
 				}
+				// a store at position+k carries its offset: stores between two
+				// updates of the position are ordered by where they land, not by
+				// where they stand in the source
+				if i < len(offs) && offs[i] >= 0 {
+					tok = "@" + strconv.Itoa(offs[i]) + ":" + tok
+				}
+				toks = append(toks, tok)
+			}
+			if len(toks) == 0 && updatesIntVar(fn.Info(), v) {
+				return "|"
 			}
 			return strings.Join(toks, ",")
-		}, stop, 4)
+		}, stop, 8)
 		for b := 0; b < 256; b++ {
-			for t := range traces[b] {
+			seen := map[string]bool{}
+			for t0 := range traces[b] {
+				t := orderStores(t0)
+				if seen[t] {
+					continue
+				}
+				seen[t] = true
 				items := strings.Split(t, ",")
 				switch {
 				case t == "":
@@ -694,6 +711,119 @@ func stringWriterTable(c *core.Ctx, o *core.Ob) escTable {
 		core.Undecided("formatString: escaping loop not recognised")
 	}
 	return res
+}
+
+// storeOffsets gives, for each sink expression of an indexed store
+// buf[pos+k] = x at the vertex, the constant k (0 for buf[pos]); -1 for
+// everything else.
+func storeOffsets(info *types.Info, v *core.V) []int {
+	s, ok := v.AST.(*ast.AssignStmt)
+	if !ok {
+		return nil
+	}
+	var out []int
+	for i, r := range s.Rhs {
+		if call, ok := ast.Unparen(r).(*ast.CallExpr); ok && core.CalleeKey(info, call) == "builtin.append" && !call.Ellipsis.IsValid() {
+			for range call.Args[1:] {
+				out = append(out, -1)
+			}
+			continue
+		}
+		if i < len(s.Lhs) && len(s.Lhs) == len(s.Rhs) {
+			if ix, isIdx := ast.Unparen(s.Lhs[i]).(*ast.IndexExpr); isIdx {
+				out = append(out, indexOffset(info, ix.Index))
+			}
+		}
+	}
+	return out
+}
+
+func indexOffset(info *types.Info, x ast.Expr) int {
+	x = ast.Unparen(x)
+	if _, ok := x.(*ast.Ident); ok {
+		if tv, ok := info.Types[x]; ok && tv.Value != nil {
+			return -1
+		}
+		return 0
+	}
+	if be, ok := x.(*ast.BinaryExpr); ok && be.Op == token.ADD {
+		l, r := ast.Unparen(be.X), ast.Unparen(be.Y)
+		if _, ok := l.(*ast.Ident); !ok {
+			l, r = r, l
+		}
+		if _, ok := l.(*ast.Ident); ok {
+			if tv, ok := info.Types[l]; ok && tv.Value != nil {
+				return -1
+			}
+			if k, ok := core.IntConst(info, r); ok && k >= 0 && k < 64 {
+				return int(k)
+			}
+		}
+	}
+	return -1
+}
+
+// updatesIntVar: the vertex assigns to a plain integer variable (a position
+// counter may have moved).
+func updatesIntVar(info *types.Info, v *core.V) bool {
+	isInt := func(x ast.Expr) bool {
+		id, ok := ast.Unparen(x).(*ast.Ident)
+		if !ok {
+			return false
+		}
+		t := info.TypeOf(id)
+		if t == nil {
+			return false
+		}
+		b, ok := t.Underlying().(*types.Basic)
+		return ok && b.Info()&types.IsInteger != 0
+	}
+	switch s := v.AST.(type) {
+	case *ast.IncDecStmt:
+		return isInt(s.X)
+	case *ast.AssignStmt:
+		for _, l := range s.Lhs {
+			if isInt(l) {
+				return true
+			}
+		}
+	}
+	return false
+}
+
+// orderStores puts the stores between two position updates into the order
+// of their offsets and removes the markers.
+func orderStores(t string) string {
+	if !strings.Contains(t, "@") && !strings.Contains(t, "|") {
+		return t
+	}
+	var out []string
+	var run []string
+	flush := func() {
+		sort.SliceStable(run, func(i, j int) bool {
+			a, _ := strconv.Atoi(run[i][1:strings.Index(run[i], ":")])
+			b, _ := strconv.Atoi(run[j][1:strings.Index(run[j], ":")])
+			return a < b
+		})
+		for _, r := range run {
+			out = append(out, r[strings.Index(r, ":")+1:])
+		}
+		run = nil
+	}
+	for _, it := range strings.Split(t, ",") {
+		switch {
+		case strings.HasPrefix(it, "@"):
+			run = append(run, it)
+		case it == "|":
+			flush()
+		case it == "":
+		default:
+			flush()
+			out = append(out, it)
+		}
+	}
+	flush()
+	return strings.Join(out, ",")
 }
 
 // stringReaderTable extracts the reader side: the set of bytes read
